@@ -38,8 +38,11 @@ RULE = ("Grids with 2..6 cells per direction, or one long axis of 7..32 cells "
 ASSUMPTIONS = [
     "reference operator vp/refop.py; rounding floor 1e-10 relative to "
     "|A||e|+|s| per row (measured <= 4e-16 on the pinned tree)",
-    "(viii) tolerance 1e-9 in the residual form |A d| <= tol (|A|(|e|+|e_ref|)"
-    " + |s|) (measured <= 3e-14 for the matching convention); which sweep "
+    "(iii), (vii), (viii): the rounding scale includes the field *before* "
+    "smoothing (a start field 1e15 times the solution leaves rounding of "
+    "its own size behind; false alarm of the first thorough run)",
+    "(viii) tolerance 1e-9 in the residual form |A d| <= tol (|A|(|e|+|e_ref|"
+    "+|e_0|) + |s|) (measured <= 3e-14 for the matching convention); which sweep "
     "is 'forward' is not fixed by the docstrings (the code's first sweep "
     "descends), only that odd counts mean the same for every kernel; after "
     "many sweeps or with weakly coupled blocks several conventions match "
@@ -394,13 +397,17 @@ def case_smooth(spec, rec):
     sc = emg3d.Field(grid, frequency=freq)
     ec.field[:] = a*e1.field + (1-a)*e2.field
     sc.field[:] = a*s1.field + (1-a)*s2.field
+    # rounding of every sweep is relative to the field at that sweep, which
+    # starts at the initial field (possibly 1e15 times the final one)
+    mag0 = (abs(a)*np.abs(e1.field) + abs(1-a)*np.abs(e2.field) +
+            np.abs(ec.field))
     _smooth(emg3d, vm, s1, e1, nu, lr)
     _smooth(emg3d, vm, s2, e2, nu, lr)
     _smooth(emg3d, vm, sc, ec, nu, lr)
     rhs = a*e1.field + (1-a)*e2.field
     d = ec.field - rhs
     mag = (abs(a)*np.abs(e1.field) + abs(1-a)*np.abs(e2.field) +
-           np.abs(ec.field))
+           np.abs(ec.field)) + mag0
     scl = absA @ mag
     rd = np.abs(A @ d)
     if np.any(rd[interior] > 1e-9*(scl[interior] + 1e-3*scl.max())):
@@ -417,11 +424,12 @@ def case_smooth(spec, rec):
     if len(dirs) <= 1:
         ea, eb = field(61), field(61)
         sab = field(62, source=True)
+        mag0 = 2*np.abs(ea.field)
         _smooth(emg3d, vm, sab, ea, 2, lr)
         _smooth(emg3d, vm, sab, ea, nu, lr)
         _smooth(emg3d, vm, sab, eb, nu + 2, lr)
         d = ea.field - eb.field
-        mag = np.abs(ea.field) + np.abs(eb.field)
+        mag = np.abs(ea.field) + np.abs(eb.field) + mag0
         scl = absA @ mag + sabs(sab)
         rd = np.abs(A @ d)
         if np.any(rd[interior] > 1e-9*(scl[interior] + 1e-3*scl.max())):
@@ -484,7 +492,7 @@ def case_smooth(spec, rec):
                 for order in _sweep_orders(shape, kern):
                     er = _ref_gs(Ad, sint, e0, order, nsw, desc)
                     dd = eout - er
-                    mg = np.abs(eout) + np.abs(er)
+                    mg = np.abs(eout) + np.abs(er) + np.abs(e0)
                     sc_ = absA @ mg + np.abs(sint)
                     r = np.abs(A @ dd)[interior]/(
                         sc_[interior] + 1e-3*sc_.max() + 1e-300)
